@@ -338,6 +338,13 @@ class IncomingMessageHandler(IncomingMessageHandlerBase):
         except (ValueError, OverflowError) as err:
             raise InvalidMessageError(err, message) from err
 
+        if not 0 <= battery_level <= 100:  # noqa: PLR2004
+            # The level is a percentage. The node schema wouldn't load another value.
+            raise InvalidMessageError(
+                ValueError("The battery level must be between 0 and 100"),
+                message,
+            )
+
         gateway.nodes[message.node_id].battery_level = battery_level
         return message
 
